@@ -589,6 +589,19 @@ func C08(r *vf.Run) {
 			w.cells["program-steps"] += local
 		})
 	}
+	if r.Phase("deep-recursion") {
+		// call depth is history too: routines calling themselves thousands of frames deep (JSR, JSL), and a
+		// thousand nested calls unwound again by a thousand returns
+		kinds := []string{"jsr-self-recursion", "jsl-self-recursion", "jsr-rts-deep-then-unwind"}
+		r.Parallel(ncpu, len(kinds)*r.N(2, 16), func(wi, ci int) {
+			w := newDiffWorker(r)
+			defer w.flush()
+			g := r.Rand("deep").Fork(uint64(ci))
+			kind := kinds[ci%len(kinds)]
+			s, img, steps := longRunCase(g, kind)
+			w.longRun(kind, s, img, steps, g)
+		})
+	}
 	if r.Phase("console-devices") {
 		// the whole bus mapped by the library's own devices: the console as CreateEmulator wires it (RAM
 		// devices and the register-window device), the holes filled with one more RAM. Every address of the
@@ -679,6 +692,8 @@ func C08(r *vf.Run) {
 		})
 	}
 	if r.OnlyPhase == "" {
+		r.Require("long:jsr-self-recursion")
+		r.Require("long:jsr-rts-deep-then-unwind")
 		r.RequireSub("console-devices:bank00:alt=false")
 		r.RequireSub("console-devices:bank00:alt=true")
 		for _, c := range []string{"model:ea24-overflow:abs,X", "model:ea24-overflow:abs,Y", "model:ea24-overflow:long,X", "model:ea24-overflow:(dp),Y", "model:ea24-overflow:[dp],Y",
